@@ -1,17 +1,22 @@
-(** Model of cert/store.go ([certstore.BuildNameToCertificate], [getCertificate],
-    the atomic store) and of cert/watch.go (the reload loop), after the repair of the
-    reload loop (fix: commit in /repo: sleep after a failed certificate build) and of the
-    index (fix: commit: certificate names are lower-cased when indexed); the old loop and
-    the old index are kept as [watch_step_spinning] / [build_from_unfolded] for the
-    refutation theorems.
+(** Model of cert/store.go ([certstore.BuildNameToCertificate], [getCertificate], the
+    atomic store), of cert/load.go ([loadCertificates]) and of cert/watch.go (the reload
+    loop), as the code is after the fix: commits in /repo
+      2594210  sleep after a failed certificate build,
+      64c758c  certificate names are lower-cased when indexed,
+      887d762  a load that yields no certificate is an unusable load (nothing is published,
+               [last] is not updated).
+    The code before each of them is kept for the refutation theorems:
+    [watch_step_spinning], [build_from_unfolded], [watch_step_unrepaired].
     A certificate is abstracted to the list of names BuildNameToCertificate indexes it
-    under: the CommonName when non-empty, then the DNS SANs, in that order. *)
+    under: the CommonName when non-empty, then the DNS SANs, in that order.
+    strings.ToLower is modelled on ASCII only (see checks/C11.json assumptions). *)
 From Coq Require Import String List NArith Bool.
 From Fabio Require Import Lib.Outcome Lib.Bytes.
 Import ListNotations.
 Local Open Scope N_scope.
 
 Definition cert := list str.
+Definition certset := list cert.
 
 (* map[string]*tls.Certificate built by successive assignments: an association list in
    assignment order; a later assignment to the same key wins *)
@@ -62,6 +67,13 @@ Fixpoint first_hit (ix : index) (cands : list str) : option nat :=
   end.
 
 Inductive pick := PCert (i : nat) | PNone | PErrNoCerts.
+Definition pick_eqb (a b : pick) : bool :=
+  match a, b with
+  | PCert i, PCert j => Nat.eqb i j
+  | PNone, PNone => true
+  | PErrNoCerts, PErrNoCerts => true
+  | _, _ => false
+  end.
 
 (* getCertificate(cs, hello, strict); [ix = None] is a nil NameToCertificate map *)
 Definition get_certificate (certs : list cert) (ix : option index) (server_name : str) (strict : bool) : pick :=
@@ -86,10 +98,10 @@ Definition get_certificate (certs : list cert) (ix : option index) (server_name 
 Definition store_pick (certs : list cert) (server_name : str) (strict : bool) : pick :=
   get_certificate certs (Some (build_index certs)) server_name strict.
 
-(* ---- the atomic store under interleaving: a handshake loads the store once and then
-        computes on that snapshot ---- *)
+(* ---- the atomic store under interleaving, coarse: SetCertificates is one action, a
+        handshake is one action ---- *)
 Inductive action :=
-| APublish (certs : list cert)                 (* Store.SetCertificates: one atomic.Value.Store *)
+| APublish (certs : list cert)                 (* Store.SetCertificates *)
 | AHandshake (name : str) (strict : bool).     (* certstore() load + getCertificate on the snapshot *)
 (* run a schedule of atomic actions from the store content [cur]; output: the handshake results *)
 Fixpoint run_store (cur : list cert) (sched : list action) : list pick :=
@@ -99,39 +111,193 @@ Fixpoint run_store (cur : list cert) (sched : list action) : list pick :=
   | AHandshake n s :: r => store_pick cur n s :: run_store cur r
   end.
 
+(* ---- the atomic store under interleaving, fine: the steps that are atomic in the code.
+   SetCertificates is   cs := certstore{certs}; cs.BuildNameToCertificate()   (local to the
+   one goroutine that applies updates)  followed by  s.cs.Store(cs);
+   GetCertificate is    store.certstore()  (one atomic.Value.Load)  followed by
+   getCertificate on that value.  A certstore value = certificates + index (None = nil map);
+   NewStore stores certstore{} ---- *)
+Definition certstore_v := (certset * option index)%type.
+Definition pick_on (cs : certstore_v) (n : str) (s : bool) : pick := get_certificate (fst cs) (snd cs) n s.
+Inductive faction :=
+| FBuild (certs : certset)                       (* the updater prepares its local certstore value *)
+| FStore                                         (* the updater stores the prepared value *)
+| FLoad (t : nat)                                (* handshake t loads the store *)
+| FPick (t : nat) (name : str) (strict : bool).  (* handshake t computes on what it loaded *)
+Fixpoint snap_get {A} (t : nat) (snaps : list (nat * A)) : option A :=
+  match snaps with
+  | [] => None
+  | (u, v) :: r => if Nat.eqb u t then Some v else snap_get t r
+  end.
+(* state: store content, the updater's prepared value, what each handshake loaded *)
+Definition fstate := (certstore_v * option certstore_v * list (nat * certstore_v))%type.
+Definition fstate0 : fstate := (([], None), None, []).
+(* [mk] = what the stored value is for a set of certificates *)
+Definition mk_built (certs : certset) : certstore_v := (certs, Some (build_index certs)).
+(* the wrong order  s.cs.Store(cs); cs.BuildNameToCertificate() : the stored copy keeps its nil map *)
+Definition mk_store_first (certs : certset) : certstore_v := (certs, None).
+(* a store without a prepared value and a pick without a load are not steps of any
+   execution: they change nothing and answer nothing *)
+Definition fine_step (mk : certset -> certstore_v) (st : fstate) (a : faction) : fstate * list pick :=
+  let '(store, pend, snaps) := st in
+  match a with
+  | FBuild certs => ((store, Some (mk certs), snaps), [])
+  | FStore => match pend with
+              | Some v => ((v, None, snaps), [])
+              | None => (st, [])
+              end
+  | FLoad t => ((store, pend, (t, store) :: snaps), [])
+  | FPick t n s => match snap_get t snaps with
+                   | Some v => (st, [pick_on v n s])
+                   | None => (st, [])
+                   end
+  end.
+Fixpoint run_fine (mk : certset -> certstore_v) (st : fstate) (sched : list faction) : list pick :=
+  match sched with
+  | [] => []
+  | a :: r => let '(st', out) := fine_step mk st a in out ++ run_fine mk st' r
+  end.
+
+(* ---- cert/load.go loadCertificates ---- *)
+(* a file of the source, abstracted to what tls.X509KeyPair makes of it:
+   [f_cert] = Some (public key id, names) when it holds a CERTIFICATE block whose leaf
+   parses; [f_key] = Some key id when it holds a private key block that parses;
+   [f_id] = identity of the bytes (reflect.DeepEqual compares bytes) *)
+Record pfile := { f_id : N; f_cert : option (N * cert); f_key : option N }.
+(* map[string][]byte with distinct keys; where two maps are compared the keys are in
+   ascending order *)
+Definition blocks := list (str * pfile).
+Fixpoint blocks_find (m : blocks) (n : str) : option pfile :=
+  match m with
+  | [] => None
+  | (k, v) :: r => if beq k n then Some v else blocks_find r n
+  end.
+Definition s_cert : str := bs "-cert.pem"%string.
+Definition s_key : str := bs "-key.pem"%string.
+Definition s_pem : str := bs ".pem"%string.
+Definition replace_suffix (s old new : str) : str := firstn (length s - length old) s ++ new.
+(* (certFile, keyFile) of a map key, None for names that are skipped *)
+Definition classify (name : str) : option (str * str) :=
+  if has_suffix name s_cert then Some (name, replace_suffix name s_cert s_key)
+  else if has_suffix name s_key then Some (replace_suffix name s_key s_cert, name)
+  else if has_suffix name s_pem then Some (name, name)
+  else None.
+(* pemBlocks[certFile], pemBlocks[keyFile] both present and tls.X509KeyPair succeeds *)
+Definition key_pair (m : blocks) (cf kf : str) : option cert :=
+  match blocks_find m cf, blocks_find m kf with
+  | Some c, Some k =>
+      match f_cert c, f_key k with
+      | Some (pub, names), Some sk => if pub =? sk then Some names else None
+      | _, _ => None
+      end
+  | _, _ => None
+  end.
+Fixpoint assoc_mem {A} (k : str) (x : list (str * A)) : bool :=
+  match x with
+  | [] => false
+  | (k', _) :: r => beq k' k || assoc_mem k r
+  end.
+(* the range loop, in the order [names]; [x] = the map of loaded pairs, [bad] = errs non-empty *)
+Fixpoint load_loop (all : blocks) (names : list str) (x : list (str * cert)) (bad : bool)
+  : list (str * cert) * bool :=
+  match names with
+  | [] => (x, bad)
+  | name :: r =>
+      match classify name with
+      | None => load_loop all r x bad
+      | Some (cf, kf) =>
+          if assoc_mem cf x then load_loop all r x bad
+          else match key_pair all cf kf with
+               | None => load_loop all r x true
+               | Some c => load_loop all r ((cf, c) :: x) bad
+               end
+      end
+  end.
+(* sort.Strings over the (distinct) certificate file names *)
+Fixpoint insert_file (e : str * cert) (l : list (str * cert)) : list (str * cert) :=
+  match l with
+  | [] => [e]
+  | h :: t => if str_ltb (fst h) (fst e) then h :: insert_file e t else e :: l
+  end.
+Definition sort_files (l : list (str * cert)) : list (str * cert) := fold_right insert_file [] l.
+Definition load_files (m : blocks) : list (str * cert) * bool :=
+  let '(x, bad) := load_loop m (map fst m) [] false in (sort_files x, bad).
+(* (certs, err != nil) *)
+Definition load_certificates (m : blocks) : certset * bool :=
+  let '(x, bad) := load_files m in (map snd x, bad).
+
 (* ---- cert/watch.go ---- *)
-(* what one call of loadFn + loadCertificates yields: an error, or PEM blocks (abstract
-   identity [id], compared with reflect.DeepEqual) that build into certificates or do not *)
+(* what one call of loadFn yields: an error, or a map (None = a nil map, which loadPath and
+   loadURL return for an empty path) *)
 Inductive load :=
 | LoadErr
-| Blocks (id : N) (good : option N).   (* Some set = loadCertificates succeeded with that set; None = it failed *)
-Inductive event := ELoad | ESleep | EPublish (set : N).
+| Loaded (m : option blocks).
+Inductive event := ELoad | ESleep | EPublish (set : certset).
 
-(* one iteration of the loop; state = identity of the last published blocks; result:
+Definition cert_eqb : cert -> cert -> bool := list_eqb beq.
+Definition pfile_eqb (a b : pfile) : bool :=
+  (f_id a =? f_id b)
+  && opt_eqb (fun x y => (fst x =? fst y) && cert_eqb (snd x) (snd y)) (f_cert a) (f_cert b)
+  && opt_eqb N.eqb (f_key a) (f_key b).
+Definition blocks_eqb : blocks -> blocks -> bool :=
+  list_eqb (fun x y => beq (fst x) (fst y) && pfile_eqb (snd x) (snd y)).
+(* reflect.DeepEqual(next, last): a nil map equals only a nil map *)
+Definition same_blocks : option blocks -> option blocks -> bool := opt_eqb blocks_eqb.
+(* loadCertificates(next); ranging over a nil map is ranging over an empty one *)
+Definition built (next : option blocks) : certset * bool :=
+  load_certificates (match next with Some m => m | None => [] end).
+
+(* one iteration of the loop; state = the last published blocks (None = nil); result:
    events after the ELoad, new state, whether the loop returns (the [once] case) *)
-Definition watch_step (once : bool) (last : option N) (l : load) : list event * option N * bool :=
+Definition watch_step (once : bool) (last : option blocks) (l : load) : list event * option blocks * bool :=
   match l with
   | LoadErr => ([ESleep], last, false)
-  | Blocks id good =>
-      if match last with Some l0 => l0 =? id | None => false end then ([ESleep], last, false)
-      else match good with
-           | None => ([ESleep], last, false)              (* repaired: sleep before retrying *)
-           | Some set => ([EPublish set], Some id, once)
-           end
+  | Loaded next =>
+      if same_blocks next last then ([ESleep], last, false)
+      else let '(certs, err) := built next in
+           if err then ([ESleep], last, false)                (* 2594210: sleep before retrying *)
+           else match certs with
+                | [] => ([ESleep], last, false)               (* 887d762: nothing to publish *)
+                | _ => ([EPublish certs], next, once)
+                end
   end.
-(* the loop before the repair: `continue` without sleeping *)
-Definition watch_step_spinning (once : bool) (last : option N) (l : load) : list event * option N * bool :=
+(* the loop before 887d762: whatever loadCertificates returned without an error was
+   published, an empty set included *)
+Definition watch_step_unrepaired (once : bool) (last : option blocks) (l : load) : list event * option blocks * bool :=
   match l with
-  | Blocks id None =>
-      if match last with Some l0 => l0 =? id | None => false end then ([ESleep], last, false)
-      else ([], last, false)
-  | _ => watch_step once last l
+  | LoadErr => ([ESleep], last, false)
+  | Loaded next =>
+      if same_blocks next last then ([ESleep], last, false)
+      else let '(certs, err) := built next in
+           if err then ([ESleep], last, false)
+           else ([EPublish certs], next, once)
+  end.
+(* the loop before 2594210: `continue` without sleeping after a failed build *)
+Definition watch_step_spinning (once : bool) (last : option blocks) (l : load) : list event * option blocks * bool :=
+  match l with
+  | LoadErr => ([ESleep], last, false)
+  | Loaded next =>
+      if same_blocks next last then ([ESleep], last, false)
+      else let '(certs, err) := built next in
+           if err then ([], last, false)
+           else ([EPublish certs], next, once)
   end.
 
-Fixpoint watch_run (step : bool -> option N -> load -> list event * option N * bool)
-         (once : bool) (last : option N) (script : list load) : list event :=
+Definition wstep := bool -> option blocks -> load -> list event * option blocks * bool.
+(* the events of each iteration (after its load), until the script ends or the loop returns *)
+Fixpoint watch_iters (step : wstep) (once : bool) (last : option blocks) (script : list load) : list (list event) :=
   match script with
   | [] => []
   | l :: r => let '(ev, last', stop) := step once last l in
-              ELoad :: ev ++ (if stop then [] else watch_run step once last' r)
+              ev :: (if stop then [] else watch_iters step once last' r)
   end.
+Definition watch_run (step : wstep) (once : bool) (last : option blocks) (script : list load) : list event :=
+  flat_map (fun ev => ELoad :: ev) (watch_iters step once last script).
+
+(* ---- watch loop -> channel -> the goroutine of TLSConfig -> Store: every publication is
+   one SetCertificates; a handshake (name, strict) is made after every iteration ---- *)
+Definition store_actions (ev : list event) : list action :=
+  flat_map (fun e => match e with EPublish s => [APublish s] | _ => [] end) ev.
+Definition e2e_actions (step : wstep) (once : bool) (last : option blocks) (script : list load)
+           (n : str) (s : bool) : list action :=
+  flat_map (fun ev => store_actions ev ++ [AHandshake n s]) (watch_iters step once last script).
